@@ -1431,8 +1431,9 @@ static int parse_loop(struct scanner_s *scanner, cif_container_tp *container) {
                             scanner->skip_depth = 2;
                             break;
                         case CIF_TRAVERSE_END:
+                        default:
+                            /* CIF_TRAVERSE_END or an error code: stop parsing */
                             goto loop_body_end;
-                        /* default: do nothing */
                     }
                 }  /* else loop == NULL from its initialization */
 
